@@ -12,10 +12,10 @@ res() { echo "{\"seed\":\"$(basename $WT)-$M\",\"ok\":$1,\"why\":\"$2\"}"; git c
 git apply --check $D 2>/dev/null || res false "patch does not apply"
 cp $T $PKG/zz_seed_demo_test.go
 # without the change: demo passes
-timeout 600 go test -vet=off -count=1 -run 'SeedDemo' ./$PKG/ >/tmp/seedc.$$ 2>&1 || { res false "demo fails on the unchanged tree: $(tail -3 /tmp/seedc.$$ | tr '\n"' ' .')"; }
+timeout 600 go test -vet=off -count=1 -run 'Seed' ./$PKG/ >/tmp/seedc.$$ 2>&1 || { res false "demo fails on the unchanged tree: $(tail -3 /tmp/seedc.$$ | tr '\n"' ' .')"; }
 git apply $D
 go build ./... >/tmp/seedc.$$ 2>&1 || res false "does not build"
-timeout 600 go test -vet=off -count=1 -run 'SeedDemo' ./$PKG/ >/tmp/seedc.$$ 2>&1 && res false "demo passes with the change"
+timeout 600 go test -vet=off -count=1 -run 'Seed' ./$PKG/ >/tmp/seedc.$$ 2>&1 && res false "demo passes with the change"
 rm $PKG/zz_seed_demo_test.go
 FAILS=$(timeout 1500 go test -vet=off -count=1 ./... 2>&1 | grep -- '^--- FAIL' | awk '{print $3}' | sort | tr '\n' ' ')
 for f in $FAILS; do case $f in TestNewClient|TestStatsd_BadSnapshot|TestStatsd_Configure|TestJoin|TestTimeout) ;; *) res false "existing test fails with the change: $f";; esac; done
